@@ -90,6 +90,9 @@ def run_harnesses(repo, work, harnesses, timeout=1500, extra_flags=()):
         m = re.search(r"VERIFICATION:- (SUCCESSFUL|FAILED)", ch)
         cov = re.search(r"(\d+) of (\d+) cover properties satisfied", ch)
         status = m.group(1) if m else "UNDECIDED"
+        if status == "FAILED" and not failed:
+            # "CBMC failed" (crash / out of memory): no verdict
+            status = "UNDECIDED"
         unwind_fail = any("unwinding assertion" in f for f in failed)
         if status == "FAILED" and unwind_fail and all("unwinding assertion" in f for f in failed):
             status = "UNDECIDED"
